@@ -103,7 +103,8 @@ def mypy_expression_to_sds_type(expr: mp_nodes.Expression) -> sds_types.Abstract
     elif isinstance(expr, mp_nodes.UnaryExpr):
         return mypy_expression_to_sds_type(expr.expr)
 
-    raise TypeError("Unexpected expression type.")  # pragma: no cover
+    # Other expressions (lists, dicts, operators, comparisons, calls, ...) cannot be inferred
+    return sds_types.UnknownType()
 
 
 def mypy_expression_to_python_value(
